@@ -12,8 +12,8 @@ MANIFEST = {
     "technique": "Rocq proof over the Factory/Resolve model + vm_compute correspondence on generated wiring scenarios",
 }
 
-PROFILES = [(Profile(p_wrap=0.0, n_procs=(0, 0), p_extra_instance=0.5, max_ifaces=4, kind_weights={"ptr": 3, "iface": 4, "sptr": 3, "siface": 4, "any": 1, "func": 3, "name": 0.5, "other": 0.1}), 420, 4500),
-            (Profile(p_wrap=0.0, n_procs=(0, 0), n_bare=(1, 3), p_sealed=0.5, p_local_twins=0.4, p_foreign_twins=0.4, max_ifaces=3, fields=(1, 4), kind_weights={"ptr": 1, "iface": 3, "sptr": 1, "siface": 5, "any": 5, "func": 0.5, "name": 1, "other": 0}), 180, 1500)]
+PROFILES = [(Profile(p_wrap=0.0, n_procs=(0, 2), p_extra_instance=0.5, max_ifaces=4, kind_weights={"ptr": 3, "iface": 4, "sptr": 3, "siface": 4, "any": 1, "func": 3, "name": 0.5, "other": 0.1}), 420, 4500),
+            (Profile(p_wrap=0.0, n_procs=(0, 2), n_bare=(1, 3), p_sealed=0.5, p_local_twins=0.4, p_foreign_twins=0.4, max_ifaces=3, fields=(1, 4), kind_weights={"ptr": 1, "iface": 3, "sptr": 1, "siface": 5, "any": 5, "func": 0.5, "name": 1, "other": 0}), 180, 1500)]
 
 RULE = 'populations of several types x interfaces x instances; consumer fields *T, I, []*T, []I, any, func; non-trivial = successful start with an unnamed point that has >= 2 admissible providers'
 
